@@ -825,6 +825,92 @@ def r8_8(ctx):
         ctx.ok("R8.8", "parse:<module>", "the atom class excludes exactly the atom-specials (and `}`); `]` and every other printable character is read as part of an astring")
 
 
+def const_text(p, module, node, depth=0):
+    """Value of a module-level str/bytes constant expression (literals, `+`, names of other constants, re.compile(<that>));
+    None when it is not one."""
+    if isinstance(node, ast.Constant) and isinstance(node.value, (str, bytes)):
+        return node.value
+    if isinstance(node, ast.BinOp) and isinstance(node.op, ast.Add):
+        l, r = const_text(p, module, node.left, depth), const_text(p, module, node.right, depth)
+        if l is None or r is None or type(l) is not type(r):
+            return None
+        return l + r
+    if isinstance(node, ast.JoinedStr):
+        out = ""
+        for v in node.values:
+            t = const_text(p, module, v.value if isinstance(v, ast.FormattedValue) else v, depth)
+            if not isinstance(t, str):
+                return None
+            out += t
+        return out
+    if isinstance(node, ast.Name) and depth < 6:
+        try:
+            return const_text(p, module, p.module_constant(module, node.id), depth + 1)
+        except Exception:  # noqa: BLE001
+            return None
+    if isinstance(node, ast.Call) and call_name(node) == "compile" and node.args:
+        return const_text(p, module, node.args[0], depth)
+    return None
+
+
+def regex_flags(node) -> int:
+    import re as _re
+
+    fl = 0
+    if isinstance(node, ast.Call) and call_name(node) == "compile":
+        for a in list(node.args[1:]) + [k.value for k in node.keywords]:
+            for x in ast.walk(a):
+                if isinstance(x, ast.Attribute) and x.attr in ("I", "IGNORECASE"):
+                    fl |= _re.I
+                if isinstance(x, ast.Attribute) and x.attr in ("S", "DOTALL"):
+                    fl |= _re.S
+                if isinstance(x, ast.Attribute) and x.attr in ("M", "MULTILINE"):
+                    fl |= _re.M
+    return fl
+
+
+# (module, compiled constant, how the parser applies it, strings of the grammar it must take whole, why)
+GRAMMAR_SAMPLES = [
+    ("parse", "_date_time_re", "match",
+     ['"17-Jul-1996 02:44:25 -0700"', '" 5-Feb-2024 21:52:25 -0800"', '"05-Feb-2024 21:52:25 -0800"', '"31-dec-1999 23:59:59 +0000"', '" 1-JAN-2000 00:00:00 +1300"'],
+     "date-time = DQUOTE date-day-fixed \"-\" date-month \"-\" date-year SP time SP zone DQUOTE; date-day-fixed = (SP DIGIT) / 2DIGIT: the optional date of APPEND"),
+    ("parse", "_date_re", "match",
+     ["1-Feb-1994", "01-Feb-1994", '"1-Feb-1994"', '"31-Dec-2020"', "7-jul-2007"],
+     "date = date-text / DQUOTE date-text DQUOTE; date-day = 1*2DIGIT: the SEARCH date keys"),
+]
+
+
+def r8_9(ctx):
+    """The date patterns of the parser are data: whether they take every string of the grammar is read off the pattern, not
+    off the code around it.  Each is compiled as the module compiles it and must match, to its end, the sample strings of its
+    production - among them the forms a test with one zero-padded date never shows (the SP-padded day of `date-day-fixed`,
+    a one-digit `date-day`, month names in any case)."""
+    import re as _re
+
+    p = ctx.p
+    n = 0
+    for module, name, how, samples, why in GRAMMAR_SAMPLES:
+        node = p.module_constant(module, name)
+        src = const_text(p, module, node)
+        ctx.require(isinstance(src, str), f"{module}.{name} is no longer a constant pattern", anchor=True)
+        try:
+            cre = _re.compile(src, regex_flags(node))
+        except _re.error as e:
+            ctx.bad("R8.9", module, "<module>", f"{name} = {src[:60]!r}", f"the pattern does not compile: {e}", node.lineno)
+            continue
+        n += 1
+        bad = []
+        for s in samples:
+            m = getattr(cre, how)(s)
+            if m is None or m.end() != len(s):
+                bad.append(s)
+        if bad:
+            ctx.bad("R8.9", module, "<module>", f"{name} does not take {bad[0]!r}", f"a string of the grammar is refused (or cut short) by the pattern that reads it - {why}: a legal command is answered BAD", node.lineno)
+        else:
+            ctx.ok("R8.9", f"{module}:<module>", f"{name} takes all {len(samples)} sample strings of its production")
+    ctx.floor("R8.9", n, 2, "grammar patterns with samples")
+
+
 def run(ctx):
     ctx.do(r8_1)
     ctx.do(r8_2)
@@ -835,10 +921,12 @@ def run(ctx):
     ctx.do(r8_6)
     ctx.do(r8_7)
     ctx.do(r8_8)
+    ctx.do(r8_9)
     from . import c04, c16, c19
     ctx.do(c16.r16_2)
     ctx.do(c19.r19_6_7)
     ctx.do(c04.r4_7)
     ctx.do(c19.r19_4)  # framing state is reset per command
+    ctx.do(c19.r19_9)  # a refused literal does not leave its command (or its octets) in front of the next one
     for k, v in INFEASIBLE_RAISE.items():
         ctx.trust(f"frozen infeasible raise: {k[0]} {k[1]} - {v}")
